@@ -231,13 +231,14 @@ impl Prop for C11 {
             }
         }
         // reconstruct_all
-        let rounds = if tier == Tier::Thorough { 300 } else { 30 };
+        let rounds = if tier == Tier::Thorough { 300 } else { 60 };
         for _ in 0..rounds {
             let nblobs = rng.usize(1, 4);
             let mut nss: Vec<Vec<u8>> = (0..nblobs).map(|_| user_ns(rng)).collect();
             nss.sort();
             let mut all: Vec<Share> = vec![];
             let mut expect = vec![];
+            let mut any_signer = false;
             for ns in &nss {
                 let len = match rng.below(4) {
                     0 => rng.usize(1, 20),
@@ -246,6 +247,7 @@ impl Prop for C11 {
                 };
                 let data = rng.bytes(len);
                 let acc = if rng.bool() { Some(AccAddress::try_from(&rng.bytes(20)[..]).unwrap()) } else { None };
+                any_signer |= acc.is_some();
                 let blob = Blob::new(Namespace::from_raw(ns).unwrap(), data, acc, AppVersion::latest()).unwrap();
                 let mut shares = blob.to_shares().unwrap();
                 // reserved / parity shares anywhere, also inside the blob
@@ -264,8 +266,10 @@ impl Prop for C11 {
             for _ in 0..rng.usize(0, 2) {
                 all.push(reserved_share(rng));
             }
+            // every app version that supports the blobs (share version 1 needs app >= 3)
+            let app = if any_signer { rng.range(3, 7) } else { rng.range(1, 7) };
             out.op(
-                format!("rall shares={} app={} expect={}", show_shares(&all), 7, expect.join(";")),
+                format!("rall shares={} app={} expect={}", show_shares(&all), app, expect.join(";")),
                 "rall/interleaved",
                 true,
             );
@@ -311,21 +315,22 @@ impl Prop for C11 {
                     Err(e) => return format!("err {}", err_kind(&e)),
                 };
                 let mut it = shares.iter();
-                let back = match Blob::reconstruct(&mut it, app) {
+                let (back, bver) = match Blob::reconstruct(&mut it, app) {
                     Ok(b) => {
+                        let v = b.share_version.to_string();
                         if it.len() != 0 {
-                            "err:leftover".to_string()
+                            ("err:leftover".to_string(), v)
                         } else if b != blob {
-                            // same (ns, data, signer) but another field differs
-                            format!("{}:differs", show_blob(&b))
+                            // same (ns, data, signer, version) but commitment or index differs
+                            (format!("{}:differs", show_blob(&b)), v)
                         } else {
-                            show_blob(&b)
+                            (show_blob(&b), v)
                         }
                     }
-                    Err(e) => format!("err:{}", err_kind(&e)),
+                    Err(e) => (format!("err:{}", err_kind(&e)), "-".to_string()),
                 };
                 let raw: Vec<Vec<u8>> = shares.iter().map(|s| s.to_vec()).collect();
-                format!("ok n={} shares={} shares_len={} back={back}", shares.len(), hxl(&raw), blob.shares_len())
+                format!("ok n={} shares={} shares_len={} back={back} bver={bver}", shares.len(), hxl(&raw), blob.shares_len())
             }
             "recon" => {
                 let (Some(shares), Some(app)) = (arg(line, "shares").and_then(parse_shares), arg_u64(line, "app")) else {
